@@ -507,6 +507,13 @@ func c14Resolve(c c14V, sels []c14Sel, force bool) []c14V {
 			switch mode {
 			case "new", "oob", "bad":
 				idx = c14Str("k" + strconv.Itoa(n%7))
+				for _, kv := range cur.M {
+					if kv.Key.K == "s" && c14IsColliding(kv.Key.S) {
+						// a map of fully hash-colliding keys gets more of them
+						idx = c14Str(c14Colliding[n%len(c14Colliding)])
+						break
+					}
+				}
 			case "num":
 				idx = c14Int(n % 3)
 			default:
@@ -1022,8 +1029,41 @@ func c14GenList(t *rapid.T, label string, depth, width int) c14V {
 	return v
 }
 
+// Strings with one and the same hash ("ab" and "bA" collide under the string
+// hash, so do all concatenations of the same length): a map of these keeps
+// them in one collision node of the persistent hash map.
+var c14Colliding = []string{"ababab", "ababbA", "abbAab", "abbAbA", "bAabab", "bAabbA", "bAbAab", "bAbAbA"}
+
+func c14IsColliding(s string) bool {
+	for _, c := range c14Colliding {
+		if c == s {
+			return true
+		}
+	}
+	return false
+}
+
 func c14GenMap(t *rapid.T, label string, depth, width int) c14V {
 	v := c14V{K: "m"}
+	if depth >= 1 {
+		switch rapid.IntRange(0, 11).Draw(t, label+"shape") {
+		case 0:
+			// wide: enough keys that a level of the hash trie becomes an array node
+			n := rapid.IntRange(20, 45).Draw(t, label+"#wide")
+			for i := 0; i < n; i++ {
+				v.M = append(v.M, c14KV{c14Str("w" + strconv.Itoa(i)), c14Str("v" + strconv.Itoa(i))})
+			}
+			return v
+		case 1, 2:
+			// 2..4 fully hash-colliding keys, inserted one by one
+			n := rapid.IntRange(2, 4).Draw(t, label+"#coll")
+			off := rapid.IntRange(0, len(c14Colliding)-1).Draw(t, label+"colloff")
+			for i := 0; i < n; i++ {
+				v.M = append(v.M, c14KV{c14Str(c14Colliding[(off+i)%len(c14Colliding)]), c14GenVal(t, label+"cv", depth-1, width)})
+			}
+			return v
+		}
+	}
 	n := rapid.IntRange(0, width).Draw(t, label+"#")
 	seen := map[string]bool{}
 	for i := 0; i < n; i++ {
@@ -1119,7 +1159,88 @@ func c14Gen(t *rapid.T) c14Case {
 	return c
 }
 
+// c14GenForks: one container of a shape where the persistent data structures
+// have internal nodes with spare room or in-place-updatable arrays (a
+// collision node of three hash-colliding keys, a wide map with an array node,
+// lists around the tail/leaf boundaries), several aliases of it, and then a
+// different element assignment through every alias.
+func c14GenForks(t *rapid.T) c14Case {
+	var c c14Case
+	var base c14V
+	switch rapid.IntRange(0, 5).Draw(t, "shape") {
+	case 0, 1:
+		base = c14V{K: "m"}
+		off := rapid.IntRange(0, len(c14Colliding)-1).Draw(t, "colloff")
+		for i := 0; i < rapid.SampledFrom([]int{3, 3, 3, 2, 4, 5}).Draw(t, "ncoll"); i++ {
+			base.M = append(base.M, c14KV{c14Str(c14Colliding[(off+i)%len(c14Colliding)]), c14Str("c" + strconv.Itoa(i))})
+		}
+	case 2:
+		base = c14V{K: "m"}
+		for i := 0; i < rapid.IntRange(17, 45).Draw(t, "nwide"); i++ {
+			base.M = append(base.M, c14KV{c14Str("w" + strconv.Itoa(i)), c14Str("v" + strconv.Itoa(i))})
+		}
+	case 3, 4:
+		base = c14V{K: "l"}
+		for i := 0; i < rapid.SampledFrom([]int{3, 5, 7, 31, 32, 33, 34, 63, 64, 65, 66}).Draw(t, "nlist"); i++ {
+			base.L = append(base.L, c14Str("e"+strconv.Itoa(i)))
+		}
+	default:
+		base = c14GenMap(t, "small", 2, 4)
+	}
+	var prefix []c14Sel
+	switch rapid.IntRange(0, 2).Draw(t, "wrap") {
+	case 1:
+		base = c14V{K: "l", L: []c14V{c14Str("x"), base}}
+		prefix = []c14Sel{{Mode: "ok", N: 1}}
+	case 2:
+		base = c14V{K: "m", M: []c14KV{{c14Str("k0"), base}, {c14Str("k1"), c14Str("y")}}}
+		prefix = []c14Sel{{Mode: "ok", N: 0}}
+	}
+	c.Init = []c14V{base, c14V{K: "l", L: []c14V{c14Str("other"), c14V{K: "l", L: []c14V{c14Str("z")}}}}}
+	nalias := rapid.IntRange(2, 4).Draw(t, "naliases")
+	for i := 0; i < nalias; i++ {
+		c.Ops = append(c.Ops, c14Op{K: rapid.SampledFrom([]string{"alias", "alias", "closure", "out", "cvar", "alist"}).Draw(t, "ak"), Var: 0})
+	}
+	nset := rapid.IntRange(3, 8).Draw(t, "nsets")
+	for i := 0; i < nset; i++ {
+		sel := c14Sel{Mode: rapid.SampledFrom([]string{"new", "new", "new", "ok", "neg"}).Draw(t, "mode"), N: rapid.IntRange(0, 11).Draw(t, "n")}
+		op := c14Op{
+			K:    rapid.SampledFrom([]string{"set", "set", "set", "del", "tmp", "with"}).Draw(t, "k"),
+			Var:  rapid.SampledFrom([]int{0, 0, 2, 3, 4, 5, 6, 7}).Draw(t, "var"),
+			Path: append(append([]c14Sel(nil), prefix...), sel),
+			Rhs:  c14Rhs{Lit: &c14V{K: "s", S: "new" + strconv.Itoa(i)}},
+		}
+		if op.K == "tmp" || op.K == "with" {
+			op.Var2 = 1
+			op.Path2 = []c14Sel{{Mode: "ok", N: 0}}
+			op.Rhs2 = c14Rhs{Lit: &c14V{K: "s", S: "t"}}
+			op.Form = rapid.IntRange(0, 1).Draw(t, "form")
+			op.Inner = rapid.Bool().Draw(t, "inner")
+		}
+		c.Ops = append(c.Ops, op)
+	}
+	return c
+}
+
 func init() {
+	vs.Register(vs.Prop[c14Case]{
+		Name: "C14/forks",
+		Rule: "one container whose persistent representation has nodes with spare room or update-in-place arrays (3 hash-colliding string keys, a 17-45 key map, lists of length 31-34 / 63-66), optionally nested in an outer list/map, 2-4 aliases of it (variable, list of it, closure capture, variable capture, output value), then 3-8 different element assignments / deletions / tmp / with through the original and the aliases; after every step everything is compared with the Go model; non-trivial = at least two successful assignments",
+		Gen:  c14GenForks,
+		Check: func(c c14Case) error {
+			_, err := c14RunCase(c, elv.New())
+			return err
+		},
+		Class: func(c c14Case) (string, bool) {
+			st, _ := c14RunCase(c, nil)
+			if st.assignOK+st.temps >= 2 {
+				return "fork", true
+			}
+			return "few-assignments", false
+		},
+		Quick: 250, Thorough: 2500,
+		Timeout: 120 * time.Second,
+	})
 	vs.Register(vs.Prop[c14Case]{
 		Name: "C14/history",
 		Rule: "2-3 variables holding nested lists/maps (depth<=3, occasionally a list of 33-70 elements), then 8-40 steps: set a[i][j].. = v (v a literal or $b[..], so structure is shared), del a[k].., two element lvalues in one set, a rest lvalue @a[i], tmp / with on an element inside a function (the body outputs everything, may assign another variable, may fail), and alias steps (var b = $a[..], var c = [$a $a[i]], a closure that captured the value, a closure that captured the variable, a value output and kept by the harness); indices are existing / negative / typed-number / new-key / out-of-range / non-integer; after every step every variable, every closure and every value ever output is compared with the Go model; non-trivial = at least one alias sharing structure with a variable that is assigned afterwards and at least two successful assignments with a path of length >= 2",
